@@ -7,7 +7,7 @@ HARNESS = c06.HARNESS
 MODULE = c06.MODULE
 ENTRIES = c06.ENTRIES
 BOUNDS = {
-    "quick": {"files": "API-built FO3/SK/SSE/FO4/FO76 models (20.2.0.7, with block sizes), <= 14 blocks, <= 8 block types", "relabelled_subsets": "every single type, all types at once, and 6 further subsets per model", "payload": "every relabelled block's payload is fully symbolic (its recorded size)", "save_options": "raw and default"},
+    "quick": {"files": "API-built FO3/SK/SSE/FO4/FO76 models (20.2.0.7, with block sizes), <= 14 blocks, <= 8 block types", "relabelled_subsets": "every single type, all types at once, and 6 further subsets per model", "payload": "every relabelled block's payload is fully symbolic (its recorded size)", "save_options": "raw and default; also saving a copy (copy constructor) and an already used object the model was assigned to"},
     "thorough": {"files": "as quick, more feature combinations", "relabelled_subsets": "every non-empty subset of the model's block types (<= 255 per model)", "payload": "symbolic", "save_options": "raw and default"},
 }
 ASSUMPTIONS = [
@@ -20,7 +20,7 @@ LEVEL_TEXT = ("Bounded symbolic model checking of NifFile::Load/Save with NiUnkn
               "the output, that no block was added/removed/reordered and that every input string index still denotes the same string.")
 LEVEL_NOTE = "Subsets of types enumerated (bounded), payload symbolic; small API-built files."
 
-MODELS = [(SSE, SKIN | EXTRA | LOOSE), (FO4, EXTRA | SHAPE2), (SK, SKIN | CTRL), (FO3, EXTRA | LOOSE | CHILDNODE), (FO76, EXTRA)]
+MODELS = [(SSE, SKIN | EXTRA | LOOSE), (FO4, EXTRA | SHAPE2), (SK, SKIN | CTRL), (FO3, EXTRA | LOOSE | CHILDNODE), (FO76, EXTRA), (FO3, EXTRA | SRCTEX | TEXPATH)]
 
 
 def jobs(tier, seed):
@@ -36,6 +36,7 @@ def jobs(tier, seed):
                 J.append(dict(entry="h_c03", args=[ver, feat, mk, raw, 0], budget=bud))
         for mk in masks[:3] + masks[-2:]:
             J.append(dict(entry="h_c03", args=[ver, feat, mk, 1, 1], budget=bud))
+            J.append(dict(entry="h_c03", args=[ver, feat, mk, 0, 2], budget=bud))
     return J
 
 
